@@ -58,7 +58,10 @@ def tag_lists():
             ["income:salary"], ["transfer:out"], ["investment:ira"], ["Income:Salary", "food"], ["income.salary"], ["income-salary"], ["income_salary"],
             ["x:income"], ["income:"], [":income"], ["income/salary"], ["income salary"], ["#income"], ["transfer,income"],
             # non-ASCII look-alikes whose case mapping is special (both sides must lower-case them the same way)
-            ["\u0130ncome"], ["\u0131nvestment"], ["tran\u017ffer"], ["INCOME\u0307"], ["\uff49ncome"], ["TRANSFER\u00a0"], ["\ufeffincome"], ["inco\u00adme"]]
+            ["\u0130ncome"], ["\u0131nvestment"], ["tran\u017ffer"], ["INCOME\u0307"], ["\uff49ncome"], ["TRANSFER\u00a0"], ["\ufeffincome"], ["inco\u00adme"],
+            # a tag holding a comma next to the two-tag list it could be confused with (both orders); names of Object.prototype members
+            ["bonus", "income"], ["bonus,income"], ["extra,transfer"], ["extra", "transfer"], ["constructor"], ["toString"], ["__proto__"], ["hasOwnProperty", "income"],
+            ["valueOf"], ["length"]]
     # de-duplicate, keep order
     seen, res = set(), []
     for i, t in enumerate(out):
@@ -161,6 +164,19 @@ def check_case(case):
         outcomes.add("cash")
         if b and c:
             nontrivial += 1
+    if case.get("classify"):
+        # the same list object classified, edited in place, classified again: every call sees the list as it is now
+        L = ["food"]
+        seq = []
+        for edit in (None, ("append", "Income"), ("remove", "Income"), ("append", "transfer"), ("insert0", "INVESTMENT"), ("clear", None)):
+            if edit:
+                {"append": lambda v: L.append(v), "remove": lambda v: L.remove(v), "insert0": lambda v: L.insert(0, v), "clear": lambda v: L.clear()}[edit[0]](edit[1])
+            evals += 1
+            got = ([k for k, v in C.categorize_amount(50.0, L).items() if v != 0], C.is_excluded_from_spending(L))
+            want = ([money.bucket(50.0, list(L))], money.excluded(list(L)))
+            if got != want:
+                viol.append({"kind": "python-vs-reference", "detail": {"after_in_place_edits": list(L), "python": got, "reference": want},
+                             "case": {"classify": [[50.0, list(L)]]}})
     first = (case.get("classify") or case.get("cash"))[0]
     return {"evals": evals, "nontrivial": nontrivial, "outcomes": sorted(outcomes), "violations": viol,
             "sample_repr": {"first_input_of_chunk": first, "inputs_in_chunk": evals}}
